@@ -1,2 +1,3 @@
 pub mod core;
+pub mod selstate;
 pub mod shell;
